@@ -393,6 +393,7 @@ func (th *thread) runPkgInit(caller *frame, fn *ssa.Function, site ssa.Instructi
 					if p.own != nil && !p.own.stored && touched[g] {
 						p.own.uninit = true
 						p.own.what = "global " + g.String() + " (package init incomplete)"
+					p.own.lazyG = g
 					}
 				}
 			}
@@ -800,7 +801,7 @@ func (m *machine) load(pv value, T types.Type) value {
 		if p.own.poisoned {
 			m.checkPoison(p.own, "read")
 		}
-		if p.own.uninit {
+		if p.own.uninit && !m.tryLazyInit(p.own) {
 			panic(pathEnd{kind: endUnsupported, msg: "read of " + p.own.what})
 		}
 	}
@@ -1065,6 +1066,12 @@ func (m *machine) indexAddr(x, idxv value, instr *ssa.IndexAddr) value {
 	m.boundsCheck(idx, instr.Index.Type(), n, "indexaddr")
 	if idx.t == nil {
 		i := off + int(idx.c)
+		return ptr{slot: &arr.elems[i], own: &arr.obj, arr: arr, idx: i}
+	}
+	if et := deref(instr.Type()); !isIntegerType(et) && !isBoolType(et) {
+		// elements that are not scalars (structs, pools, pointers): the address
+		// is used for more than a load, so the index is case-split here
+		i := off + int(m.concretizeTerm(m.idx64(idx, instr.Index.Type()), "indexaddr-nonscalar"))
 		return ptr{slot: &arr.elems[i], own: &arr.obj, arr: arr, idx: i}
 	}
 	return ptr{own: &arr.obj, arr: arr, sidx: m.idx64(idx, instr.Index.Type()), lo: off, hi: off + n}
